@@ -78,8 +78,8 @@ CLAIMED = {
    technique="contract-based deductive verification: ghost capture of callee arguments/results at call-site cut points, loop invariants with a shape-independent iteration counter, end-of-iteration obligations",
    design="§10.4 C17 (table), §10.3 (layers), §10.5 (defects)"),
  "C19": dict(
-   text="Deductive proof per alias partition: every function under contract with two or more pointer operands of one type, or two or more slice operands of one element type, is verified once for every set partition of those operands (exact points-to; slices: identical-slice aliasing) against postconditions over old() values and a frame clause that forbids writes to non-destination operands: the prime-field layer of all 23 packages (Add, Sub, Double, Neg, Select, Mul, Square, Div, Set, Equal, Cmp, ..., and the portable vector loops), the extension towers of every curve (including operands pointing into the receiver for the sparse products), the small-field extensions and the twisted-Edwards point operations.",
-   note="Short-Weierstrass point and polynomial functions are verified per alias partition under C02 / C20 (same mechanism) and not repeated here. Partially overlapping slices are outside the model; assembly leaf routines are outside (assumed contracts; a bounded check per alias partition is part of the C01 thorough tier).",
+   text="Deductive proof per alias partition: every function under contract with two or more pointer operands of one type, or two or more slice operands of one element type, is verified once for every set partition of those operands (exact points-to; slices: identical-slice aliasing) against postconditions over old() values and a frame clause that forbids writes to non-destination operands: the prime-field layer of all 23 packages (Add, Sub, Double, Neg, Select, Mul, Square, Div, Set, Equal, Cmp, ..., and the portable vector loops), the extension towers of every curve (including operands pointing into the receiver for the sparse products), the small-field extensions, the twisted-Edwards and short-Weierstrass point operations and the dense polynomial operations.",
+   note="The short-Weierstrass point functions and the dense polynomial functions with several alias partitions (also claimed under C02 / C20) are part of this check. Slices: every set partition into classes sharing backing array and start, lengths independent for polynomials (identical slices and prefixes of one another); overlaps with different starts are outside the model; assembly leaf routines are outside (assumed contracts; a bounded check per alias partition is part of the C01 thorough tier).",
    technique="contract-based deductive verification with alias-partition enumeration (pointer operands, identical slices, interior pointers) and frame obligations",
    design="§10.4 C19 (table), §10.3 (layers), §10.5 (defects)"),
 }
